@@ -289,3 +289,9 @@ def run(chk):
     r5_one_shot_flags(chk, prog)
     chk.rule('R6', "tokeniser splits --key=value at the first '='", 1)
     r6_key_value_split(chk, prog)
+    # R7: where the word is cut - Engine C over ArgListIterator::operator++ from every case of the cursor invariant
+    # (C04-R6): the key handed on is exactly the text in front of the '=' found, the value starts right behind it
+    from . import c04_cursor
+    chk.rule('R7', "--key=value: the key is the text in front of the '=' and the value starts right behind it "
+             "(for every word)", 4)
+    c04_cursor.run(chk, prog, rule=None, split_rule='R7')
